@@ -41,7 +41,7 @@ type c14Bomb struct {
 	mu      sync.Mutex
 	helper  space.BombSignalHelper
 	calls   int
-	hold    chan struct{} // non-nil: the validator holds the value c14HoldValue until it is closed
+	hold    chan struct{} // non-nil: the validator holds the values +-c14HoldValue until it is closed
 	holding chan struct{} // closed when the validator has started to hold
 }
 
@@ -57,7 +57,7 @@ func (b *c14Bomb) OnDelayChange(d int32) error {
 	b.calls++
 	hold, holding := b.hold, b.holding
 	b.mu.Unlock()
-	if d == c14HoldValue && hold != nil {
+	if (d == c14HoldValue || d == -c14HoldValue) && hold != nil {
 		select {
 		case <-holding:
 		default:
@@ -685,8 +685,13 @@ func c14Concurrent(res *hx.Result, rng *hx.Rng, cf *hx.Cases, n int) {
 				threads[t] = append(threads[t], o)
 			}
 		}
-		if forced { // thread 0's first operation is the write the validator holds
-			threads[0][0] = &c14Op{tid: 0, nm: c14Delay, v: c14Int(c14HoldValue)}
+		if forced { // thread 0's first operation is the write the validator holds: a valid or an invalid one
+			hv := int32(c14HoldValue)
+			if rng.Bool() {
+				hv = -hv
+				res.Dist("conc-held-write-invalid")
+			}
+			threads[0][0] = &c14Op{tid: 0, nm: c14Delay, v: c14Int(uint32(hv))}
 		}
 		var wg sync.WaitGroup
 		start := make(chan struct{})
